@@ -72,8 +72,12 @@ def crash_key(ci):
 
 def msg_record(m):
     l = m.location
-    return {"file": m.source_file, "loc": [l.start.line, l.start.column, l.end.line, l.end.column, bool(l.is_synthetic)],
-            "severity": m.severity, "text": m.message, "creator": creator_of(m)}
+    f = m.source_file
+    if f is not None and not isinstance(f, str):
+        f = "<non-str source_file: %s>" % type(f).__name__
+    text = m.message if isinstance(m.message, str) else "<non-str message: %s>" % type(m.message).__name__
+    return {"file": f, "loc": [l.start.line, l.start.column, l.end.line, l.end.column, bool(l.is_synthetic)],
+            "severity": m.severity, "text": text, "creator": creator_of(m)}
 
 
 def make_reader(files):
